@@ -37,7 +37,7 @@ CHECKS = {
  "C19": ("fault_enumeration", "runtime fault injection on the runner API executed under two build profiles, under the Miri interpreter and under valgrind memcheck: each (circuit, input fault) is run by the release binary, by a dev-profile build, (sample) under Miri and (thorough, sample) by the release binary under memcheck; outcomes compared, Ok on a faulted run or any UB report is a violation",
          "Faults: inputs withheld / short / long / set twice / conflicting, private data missing / duplicated / wrong type / wrong size / unknown op, non-boolean direction bit; circuits whose inputs feed ALU rows, hints and Poseidon2 rows (sponge, chained, Merkle) directly.",
          "DESIGN.md §3 C19", TRUSTED),
- "C07": ("fault_enumeration", "differential runtime monitor at the PCS boundary: native TwoAdicFriPcs/HidingFriPcs verify vs the in-circuit FRI verifier on honest proofs, on every single-leaf mutation of the proof/claims/commitments and on prover-side faults (deviating challenger)",
+ "C07": ("fault_enumeration", "differential runtime monitor at the PCS boundary: native TwoAdicFriPcs/HidingFriPcs verify vs the in-circuit FRI verifier on honest proofs, on every single-leaf mutation of the proof/claims/commitments, on structural mutations of every array node (circuit rebuilt per mutant) and on prover-side faults (deviating challenger; the prover opening one point fewer/more or omitting random-codeword rows with a consistently edited transcript)",
          "Parameter grid (blow-up, queries, arity schedules, final-poly length, PoW bits, batches of mixed heights) with an exhaustive leaf sweep per honest proof; verdict agreement is the oracle.",
          "DESIGN.md §3 C07", TRUSTED),
  "C08": ("fault_enumeration", "differential runtime monitor: native MerkleTreeMmcs / hiding / extension MMCS verify_batch vs the in-circuit opening verifiers on honest openings at every index and on every single alteration (leaf, sibling word, index bit, cap word, salt, row swap)",
